@@ -393,8 +393,7 @@ _MORE8 = {
     "C01": " Every indicator gets one input of 2^15+40 values per run; rare long inputs reach 2^16.",
     "C02": " Every indicator gets one input of 2^16+8 values per run (length law only beyond 10000 values).",
     "C03": " Extra strategy entry ApoFastAboveSlow (termination only).",
-    "C04": " TripleMovingAverageCrossover: only the slow period has to be the largest.",
-    "C04": " Once per run every indicator and base strategy is cut deep inside a series of 2^15+w+40 positions.",
+    "C04": " TripleMovingAverageCrossover: only the slow period has to be the largest. Once per run every indicator and base strategy is cut deep inside a series of 2^15+w+40 positions.",
     "C05": " compound/slow-feed: once per run And / Or / Majority groups are fed by a producer that pauses 21 s (61 s thorough) at snapshot 10. Every base strategy is run once per run over a history of 2^16+8 snapshots.",
     "C06": " A threshold pair is (0, 0) in one draw in twelve.",
     "C07": " MacdRsi: in three cases out of five the instance computes once before its exported sub-strategy fields are replaced.",
